@@ -152,6 +152,40 @@ def rename_boundary(rng, g, counter):
     return done
 
 
+def prefix_names(rng, g):
+    """Give some containers names that extend a sibling's name ("n3" next to "n3_x"): hierarchical ids must be compared
+    component-wise, never as string prefixes."""
+    for n in g["nodes"]:
+        if n["kind"] == "graph":
+            prefix_names(rng, n["graph"])
+    sibs = [n["name"] for n in g["nodes"]]
+    for n in g["nodes"]:
+        if n["kind"] == "graph" and rng.random() < 0.6:
+            others = [x for x in sibs if x != n["name"] and not x.startswith(n["name"])]
+            if not others:
+                continue
+            new = rng.choice(others) + "_x"
+            if new in sibs:
+                continue
+            old = n["name"]
+            n["name"] = new
+            sibs[sibs.index(old)] = new
+            for m in g["nodes"]:
+                if m["kind"] == "ifelse":
+                    m["when_true"] = new if m["when_true"] == old else m["when_true"]
+                    m["when_false"] = new if m["when_false"] == old else m["when_false"]
+                elif m["kind"] == "route":
+                    m["targets"] = [new if t == old else t for t in m["targets"]]
+                    if m["fn"][0] == "gtable":
+                        def sub(d):
+                            if isinstance(d, list):
+                                return [new if t == old else t for t in d]
+                            return new if d == old else d
+                        m["fn"] = ["gtable", [[k, sub(d)] for k, d in m["fn"][1]], sub(m["fn"][2])]
+                    if m.get("fallback") == old:
+                        m["fallback"] = new
+
+
 def gen_case(rng, family, renames):
     if family in ("dag", "gated", "emit", "endgates"):
         g = gen.gen_dag(rng, max_nodes=7, emits=0.45 if family == "emit" else 0.0, edge_defaults=0.0)
@@ -194,6 +228,8 @@ def gen_case(rng, family, renames):
     g2 = nest_rec(g, depth)
     if pdl.graph_depth(g2) > 4:      # nesting depth 0..3
         g2 = g
+    if rng.random() < 0.3:
+        prefix_names(rng, g2)
     if renames:
         g3 = copy.deepcopy(g2)
         n_ren = rename_boundary(rng, g3, [0])
